@@ -52,7 +52,38 @@ func V4Wire(maxOpts, maxVal, mutate int) *rapid.Generator[[]byte] {
 		var ins []refv4.Instance
 		for _, o := range c.Opts {
 			v := []byte(o.Val)
-			mode := rapid.IntRange(0, 4).Draw(t, "split")
+			mode := rapid.IntRange(0, 5).Draw(t, "split")
+			if mode == 5 { // the value in one or two pieces with EMPTY instances of the same code before, between or after them
+				pieces := [][]byte{v}
+				if len(v) > 1 && len(v) <= 510 {
+					k := rapid.IntRange(1, min(len(v)-1, 255)).Draw(t, "cut")
+					if len(v)-k <= 255 {
+						pieces = [][]byte{v[:k], v[k:]}
+					}
+				}
+				if len(v) > 255 && len(pieces) == 1 {
+					pieces = nil
+					for r := v; len(r) > 0; {
+						n := min(len(r), 255)
+						pieces = append(pieces, r[:n])
+						r = r[n:]
+					}
+				}
+				where := rapid.IntRange(0, 3).Draw(t, "emptywhere") // 0 before, 1 after, 2 between, 3 before and after
+				for i, pc := range pieces {
+					if (where == 0 || where == 3) && i == 0 {
+						ins = append(ins, refv4.Instance{Code: o.Code})
+					}
+					if where == 2 && i == 1 {
+						ins = append(ins, refv4.Instance{Code: o.Code})
+					}
+					ins = append(ins, refv4.Instance{Code: o.Code, Val: pc})
+				}
+				if where == 1 || where == 3 || (where == 2 && len(pieces) == 1) {
+					ins = append(ins, refv4.Instance{Code: o.Code})
+				}
+				continue
+			}
 			if mode == 4 { // hundreds of 1-byte (and a few empty) instances of one code
 				if len(v) == 0 {
 					ins = append(ins, refv4.Instance{Code: o.Code})
